@@ -324,6 +324,13 @@ class Analysis:
                         out |= self.values_of(rhs, wfn, None, depth + 1)
             return out
         if isinstance(expr, ast.Call):
+            # D.get(k[, default]) on a container whose stored values are known: one of those values (or the default)
+            if isinstance(expr.func, ast.Attribute) and expr.func.attr == "get" and 1 <= len(expr.args) <= 2 and not expr.keywords:
+                ev = self._elements_of(expr.func.value, fn, self_cls, depth + 1)
+                if ev:
+                    if len(expr.args) == 2:
+                        ev = ev | self.values_of(expr.args[1], fn, self_cls, depth + 1)
+                    return ev
             for c in self.resolve_call(expr, fn, self_cls, depth + 1):
                 if c.fn is not None:
                     if c.how == "ctor":
